@@ -35,7 +35,7 @@ Print Assumptions C18_origin_requests_equal_processMiss_count.
 (* in particular a request that reaches a worker (whatever it finds: local entry, Transients entry with or without a
    writer, memory-cache entry, nothing) does not contact the origin in that step *)
 Theorem C18_arrival_step_makes_no_origin_request : forall c g ci w, nf (step c g (EFind ci w)) = nf g.
-Proof. intros. rewrite nf_step. cbn [starts_fetch]. apply N.add_0_r. Qed.
+Proof. exact nf_step_find. Qed.
 Print Assumptions C18_arrival_step_makes_no_origin_request.
 
 (* --- at most one writer of the Transients entry (exclusive lock), for any number of processes and any order of
